@@ -136,7 +136,13 @@ where
     let n = lvg.num_nodes();
     match how {
         How::CompGraph => b.comp_labeled_graph::<E, _, _>(&lvg, slc),
-        How::CompLender => b.comp_labeled_lender::<E, _, _>(lvg.iter(), slc, Some(n)),
+        How::CompLender => {
+            // the expected number of nodes is only a hint for the progress logger: exact,
+            // absent, too large or too small, the output must be the same (the choice is a
+            // function of the input so that replays reproduce it)
+            let hint = match (n + lvg.num_arcs() as usize) % 4 { 0 => None, 1 => Some(n), 2 => Some(n + 3), _ => Some(n.saturating_sub(2)) };
+            b.comp_labeled_lender::<E, _, _>(lvg.iter(), slc, hint)
+        }
         How::Par { cuts, threads, order } => {
             let pg = ParGraph::with_cutpoints(lvg, cuts.clone());
             let pool = rayon::ThreadPoolBuilder::new().num_threads(*threads).build()?;
